@@ -29,7 +29,9 @@ EvResize ==
                             {"mod-roundtrip"})
                     \* extraction of the resized region = that slice of the spliced sequence
                     \* (forward-strand regions: bytes directly; the complement table is C18's)
-                    \cup If(Directed(e.region) /\ e.extok /\ fwdOnly /\ e.ext # ExtBytes(e.res, want), {"resize-extract"})
+                    \cup If(Directed(e.region) /\ e.extok /\ fwdOnly
+                            /\ (\A j \in 1..Len(want) : want[j][1] >= 0 /\ want[j][1] < Len(e.res))
+                            /\ e.ext # ExtBytes(e.res, want), {"resize-extract"})
           IN /\ verdicts' = verdicts \cup Tag(e, PrintMod(e.mod), vs, calc)
              /\ ndrift' = ndrift + (IF calc = "diff" THEN 1 ELSE 0)
 
